@@ -224,6 +224,7 @@ func evalC10(col *vc.Collector, sc *C10Scn, res c10Result) {
 		var unregSeq int64 = -1
 		autoOn := false
 		dials := 0
+		var lastSetupSeq int64 = -1
 		// a cancel aborts a pending handshake; only an unregister has to close a completed connection
 		lastWasUnregister := false
 		for _, e := range res.Evs {
@@ -260,6 +261,7 @@ func evalC10(col *vc.Collector, sc *C10Scn, res c10Result) {
 					col.Violation(prop, "dial-after-shutdown", fmt.Sprintf("outbound TCP connection at %v, %v after Shutdown returned", e.T, e.T-shutdownRet), sc.ID, wit)
 				}
 			case "setup":
+				lastSetupSeq = e.Seq
 				// C01 at hub level: the remote device is set up although the local side has not granted
 				// trust at that moment (not registered, or unregistered/cancelled since; auto-accept off)
 				col.Count("C01", "hub:setups-observed", 1)
@@ -301,6 +303,11 @@ func evalC10(col *vc.Collector, sc *C10Scn, res c10Result) {
 		if !registered && everRegistered && !res.Down {
 			if res.Trusted[ti] {
 				col.Violation(prop, "still-trusted-after-unregister", fmt.Sprintf("target %d: ServiceForSKI().Trusted() is true after unregister/cancel", ti), sc.ID, wit)
+			}
+			if res.LiveOut[ti] > 0 && !autoOn && unregSeq >= 0 && lastSetupSeq > unregSeq {
+				// C01 at hub level, end state: a remote device that was set up after the user withdrew trust is
+				// still connected when everything has settled (a completion that merely raced the call is closed by then)
+				col.Violation("C01", "hub:connected-without-trust-at-the-end", fmt.Sprintf("target %d was set up after unregister/cancel returned and is still connected at the end (auto-accept off)", ti), sc.ID, wit)
 			}
 			if res.LiveOut[ti] > 0 && lastWasUnregister {
 				col.Violation(prop, "connection-alive-after-unregister", fmt.Sprintf("target %d: %d live outbound TCP connections after unregister and settling", ti, res.LiveOut[ti]), sc.ID, wit)
